@@ -2,4 +2,13 @@
 # usage: check.sh <property> <quick|thorough>
 cd /verif
 [ -x bin/verifctl ] || ./setup.sh >/dev/null 2>&1 || { echo "setup failed" >&2; exit 2; }
+if [ "$1" = "C20" ]; then
+  # two phases: lock-aware deterministic mode (deadlock-freedom, bounded completion), then the parallel-burst mode
+  # under the race detector (data races); the second phase folds the first one's evidence into evidence/C20.json
+  ./bin/verifctl check C20 --tier "${2:-quick}"; rc1=$?
+  ./bin/verifctl check C20 --tier "${2:-quick}" --race --merge; rc2=$?
+  if [ $rc1 -eq 1 ] || [ $rc2 -eq 1 ]; then exit 1; fi
+  if [ $rc1 -ne 0 ]; then exit $rc1; fi
+  exit $rc2
+fi
 exec ./bin/verifctl check "$1" --tier "${2:-quick}"
